@@ -414,6 +414,9 @@ type (
 		Type   string // optional explicit type for unbounded quantification
 		Lo, Hi Expr   // nil when unbounded
 		Body   Expr
+		// Witness: proof hint for an existential that has to be proved; may mention locals of the
+		// function (resolved at the point of the obligation). It does not change what is claimed.
+		Witness Expr
 	}
 	ECond struct{ C, A, B Expr }
 )
@@ -622,6 +625,14 @@ func (p *parser) unary() (Expr, error) {
 				return nil, err
 			}
 			q.Lo, q.Hi = lo, hi
+			if p.peek().k == "id" && p.peek().v == "witness" {
+				p.next()
+				w, err := p.expr(6)
+				if err != nil {
+					return nil, err
+				}
+				q.Witness = w
+			}
 		} else {
 			// type: sequence of tokens until '::'
 			var ty []string
